@@ -174,9 +174,11 @@ pub fn run(ctx: &Ctx) -> Report {
     let d = if ctx.quick() { 1 } else { 2 };
     let mut jobs = vec![];
     for s in own_scenarios() {
+        // two deviations on the twelve-file scenario alone would be several hundred thousand executions
+        let ds = if s.name.starts_with("many-small") { 1 } else { d };
         let s = Arc::new(s);
         for b in base_specs() {
-            jobs.push((s.clone(), b, d));
+            jobs.push((s.clone(), b, ds));
         }
     }
     let st = explore(&ctx.pool, jobs, j);
